@@ -95,6 +95,24 @@ Fixpoint quicksort_loop (fuel : nat) (liste : list Z) (stack : list (Z * Z)) : r
 Definition quicksort_iter (liste : list Z) (li re : Z) : res (list Z) :=
   quicksort_loop (2 * length liste + 2) liste [(li, re)].
 
+(* the same loop, also reporting the largest number of ranges that were on the stack at the same time
+   (the module-level `stack` has room for 50 ranges before auf_den_stack_legen has to enlarge it) *)
+Fixpoint quicksort_loop_tiefe (fuel : nat) (liste : list Z) (stack : list (Z * Z)) (tiefe : Z) : res (list Z * Z) :=
+  match fuel with
+  | O => NoFuel
+  | S f =>
+      match stack with
+      | [] => Ok (liste, tiefe)
+      | (li, re) :: rest =>
+          do '(l', i) <- quicksort_iter_impl liste li re;;
+          let s1 := if i - 1 >? li then (li, i - 1) :: rest else rest in
+          let s2 := if i + 1 <? re then (i + 1, re) :: s1 else s1 in
+          quicksort_loop_tiefe f l' s2 (Z.max tiefe (Z.max (len s1) (len s2)))
+      end
+  end.
+Definition Quicksort_Tiefe (liste : list Z) : res (list Z * Z) :=
+  quicksort_loop_tiefe (2 * length liste + 2) liste [(1, len liste)] 1.
+
 (* quicksort-iter liste 1 (die Länge von liste). *)
 Definition Quicksort_Ref (liste : list Z) : res (list Z) := quicksort_iter liste 1 (len liste).
 (* Sortiere liste mit quick-sort. Gib liste zurück.   (liste is the by-value copy) *)
